@@ -237,9 +237,11 @@ func (z *ZodStruct[T, R]) NonOptional() *ZodStruct[T, T] {
 
 	return &ZodStruct[T, T]{
 		internals: &ZodStructInternals{
-			ZodTypeInternals: *in,
-			Def:              z.internals.Def,
-			Shape:            z.internals.Shape,
+			ZodTypeInternals:  *in,
+			Def:               z.internals.Def,
+			Shape:             z.internals.Shape,
+			IsPartial:         z.internals.IsPartial,
+			PartialExceptions: z.internals.PartialExceptions,
 		},
 	}
 }
